@@ -41,6 +41,11 @@ pub use vn::VnFirst;
 pub use vn::VnFirstWeight;
 pub use z_curve::ZCurve;
 
+#[cfg(feature = "coupe_verif")]
+pub use hilbert_curve::verif_exports as verif_hilbert;
+#[cfg(feature = "coupe_verif")]
+pub use multi_jagged::verif_exports as verif_multi_jagged;
+
 /// Common errors thrown by algorithms.
 #[derive(Clone, Copy, Debug)]
 #[non_exhaustive]
